@@ -131,6 +131,12 @@ fn fri_scenario<B: Fld, E: FieldElement<BaseField = B>, H: ElementHasher<BaseFie
             let h = fri::utils::hash_values::<H, E, 4>(&t);
             parts.push(h.iter().flat_map(|d| d.to_bytes()).collect());
         },
+        16 => {
+            let t: Vec<[E; 16]> = utils::transpose_slice(&evals);
+            parts.push(bytes_of(&fri::folding::apply_drp(&t, B::GENERATOR, E::from(9u32))));
+            let h = fri::utils::hash_values::<H, E, 16>(&t);
+            parts.push(h.iter().flat_map(|d| d.to_bytes()).collect());
+        },
         _ => {
             let t: Vec<[E; 8]> = utils::transpose_slice(&evals);
             parts.push(bytes_of(&fri::folding::apply_drp(&t, B::GENERATOR, E::from(9u32))));
@@ -240,6 +246,9 @@ pub fn scenarios(thorough: bool) -> Vec<Scenario> {
         add(format!("fri/f64/fold4/{n}"), Box::new(move || fri_scenario::<B64, B64, hashers::Blake3_256<B64>>(n, 4)));
         add(format!("fri/f64^2/fold2/{n}"), Box::new(move || fri_scenario::<B64, QuadExtension<B64>, hashers::Blake3_256<B64>>(n, 2)));
         add(format!("fri/f128/fold8/{n}"), Box::new(move || fri_scenario::<B128, B128, hashers::Sha3_256<B128>>(n, 8)));
+    }
+    for n in [1024usize, 2048] {
+        add(format!("fri/f64^2/fold16/{n}"), Box::new(move || fri_scenario::<B64, QuadExtension<B64>, hashers::Rp64_256>(n, 16)));
     }
     for n in [1usize, 2, 3, 8, 31, 64, 127, 128, 129, 255, 513, 1023, 1024, 1025, 2048, 3000, 4096] {
         add(format!("utils/f64/{n}"), Box::new(move || utils_scenario::<B64, B64>(n)));
